@@ -1,4 +1,5 @@
 CFG = {
+    "coq_crosscheck": "build",
     "group": "core",
     "level": "proof",
     "coq_targets": ["Properties/C01.vo", 'ParamsTie.vo'],
